@@ -69,3 +69,64 @@
         assert!(r.buffer.begin == 0 && r.buffer.end == 0 && r.buffer.num_bytes_unread() == 0);
         kani::cover!(tag == 2);
     }
+
+    // ---------------------------------------------------------------- Reader::read_frame (async) on the harness physical layer
+    use crate::util::phys::verif_kani_io as io;
+    use crate::link::parser::verif_kani_c06_parser as pv;
+
+    /// Two reads of A and B bytes, then the peer closes. The stream is the identity pattern stream[i] = i, so the first
+    /// and last byte of every window the parser is shown ARE its stream offsets. Parser::parse behind its contract stub
+    /// (consumes any number of bytes, any result, any state).
+    fn read_frame_contract<const A: usize, const B: usize>(datagram: bool) {
+        let mode = if kani::any() { LinkErrorMode::Close } else { LinkErrorMode::Discard };
+        let modes = if datagram { LinkModes::datagram(mode) } else { LinkModes::stream(mode) };
+        let mut r = Reader::new(modes, 249);
+        let mut stream = [0u8; 64];
+        let mut j = 0;
+        while j < 64 { stream[j] = j as u8; j += 1; }
+        unsafe { io::RX = stream; io::RX_POS = 0; io::RX_CALLS = 0; io::RX_CHUNKS[0] = A; io::RX_CHUNKS[1] = B; io::RX_NCHUNKS = 2; }
+        pv::parse_log_reset();
+        let mut payload = FramePayload::new();
+        let mut shell = io::IoShell::new();
+        let res = io::run(r.read_frame(shell.get(), &mut payload, DecodeLevel::nothing()));
+        assert!(res.is_some()); // never suspends on the harness layer
+        let calls = pv::parse_calls();
+        assert!(calls >= 1 && calls <= 6);
+        let mut consumed: usize = 0;          // stream offset of the first byte not yet consumed by the parser
+        let mut i = 0;
+        while i < calls {
+            let (len, first, last, st) = pv::parse_log(i);
+            let (rs, k) = pv::parse_res(i);
+            // the parser is never called on nothing, and always up to the last byte received so far
+            assert!(len >= 1);
+            assert!(last as usize + 1 == A || last as usize + 1 == A + B);
+            assert!(len == last as usize + 1 - first as usize);
+            if datagram && i > 0 && pv::parse_res(i - 1).0 == 0 {
+                // DATAGRAM MODE: the previous datagram did not yield a frame: nothing of it survives - the parser was
+                // reset to FindSync1 and is shown exactly the next datagram
+                assert!(st == 0);
+                assert!(first as usize == A && len == B);
+                consumed = A;
+            } else {
+                // the window starts at the first unconsumed byte of the stream: no byte skipped, none shown twice
+                assert!(first as usize == consumed);
+            }
+            consumed += k;
+            if rs != 0 { assert!(i == calls - 1); } // a frame or an error ends read_frame
+            i += 1;
+        }
+        kani::cover!(calls >= 2 && pv::parse_res(0).0 == 0 && (if datagram { pv::parse_log(1).0 == B } else { pv::parse_log(1).0 > B }));
+        kani::cover!(matches!(res, Some(Ok(_))));
+    }
+
+    // @harness ids=C06,C01 tier=quick kind=bounded stubs=1 bound="two reads of 5 and 7 bytes then EOF; Parser::parse by contract" units=link::reader::Reader::read_frame,link::reader::Reader::read_more_data,link::reader::Reader::parse_buffer timeout=900 note="stream mode: whatever the parser consumes, it is always shown exactly the received-but-unconsumed bytes of the stream in order (splitting across reads does not change what the parser sees)"
+    #[kani::proof]
+    #[kani::unwind(66)]
+    #[kani::stub(Parser::parse, Parser::stub_parse)]
+    fn vk_c06_read_frame_stream() { read_frame_contract::<5, 7>(false); }
+
+    // @harness ids=C06,C01 tier=quick kind=bounded stubs=1 bound="two datagrams of 5 and 7 bytes then EOF; Parser::parse by contract" units=link::reader::Reader::read_frame timeout=900 note="datagram mode: when a datagram does not yield a complete frame, buffer AND parser are reset before the next datagram: a frame split across datagrams is never stitched together"
+    #[kani::proof]
+    #[kani::unwind(66)]
+    #[kani::stub(Parser::parse, Parser::stub_parse)]
+    fn vk_c06_read_frame_datagram() { read_frame_contract::<5, 7>(true); }
